@@ -192,6 +192,12 @@ func (g *G) Amount(label string, around *big.Int) *big.Int {
 	case 0:
 		return big.NewInt(0)
 	case 1:
+		switch g.Int(label+"/neg", 0, 3) {
+		case 0:
+			return new(big.Int).Neg(Max256) // -(2^256-1): any difference with a positive amount leaves 256 bits
+		case 1:
+			return new(big.Int).Neg(Two255)
+		}
 		return big.NewInt(-1)
 	case 2:
 		return big.NewInt(1)
@@ -890,6 +896,12 @@ func (g *G) AttesterString(label string) string {
 	if len(m.Atts) > 0 && g.Pct(label+"/existing", 35) {
 		return Pick(g, label+"/ex", m.AttesterList())
 	}
+	if len(m.Atts) > 0 && g.Pct(label+"/ethaddr", 4) {
+		// the 20-byte Ethereum-style address of an enabled key: names no entry
+		if k := KeyOfSpelling(Pick(g, label+"/ea", m.AttesterList())); k >= 0 {
+			return Pick(g, label+"/eap", []string{"0x", ""}) + Hex(attest.K(k).Addr)
+		}
+	}
 	if len(m.Atts) > 0 && g.Pct(label+"/extend", 6) {
 		// an entry whose string extends an enabled one (still accepted: the hex decoder keeps the decodable part)
 		return Pick(g, label+"/xe", m.AttesterList()) + Pick(g, label+"/xs", []string{"/01", "/", "00", "/zz", "0"})
@@ -1085,6 +1097,7 @@ type GenOpts struct {
 	MixedDenom   bool // in a fifth of the cases the minting denom has upper-case letters ("uUSDC")
 	ManyUsed     bool // an eighth of the cases start with 101..130 used nonces (more than one default query page)
 	ShortToken   bool // a third of the cases link (through genesis only) a pair whose remote token has 20 bytes
+	OddMessenger bool // in an eighth of the cases one genesis messenger's address is not 32 bytes long (36 or 20)
 	EmptyRoles   bool // in an eighth of the cases one to three of the non-owner role slots are empty strings in genesis
 	OtherLocal   bool // in a quarter of the cases a genesis pair maps a remote token to a local denom that is not the minting denom ("ueurc")
 	NoAttesters  bool // in a tenth of the cases the genesis lists no attester at all while the threshold is 1..3 (validation accepts that)
@@ -1189,6 +1202,16 @@ func (g *G) drawGenesis(o GenOpts) *GenSpec {
 	}
 	if rapid.IntRange(0, 2).Draw(t, "haslimit") == 0 {
 		gs.Limits = append(gs.Limits, LimitSpec{Denom: strings.ToLower(denom), Amount: rapid.SampledFrom([]string{"1", "1000", "1000000", "18446744073709551616"}).Draw(t, "limit")})
+	}
+	if o.OddMessenger && len(gs.Messengers) > 0 && rapid.IntRange(0, 7).Draw(t, "oddmessenger") == 0 {
+		i := rapid.IntRange(0, len(gs.Messengers)-1).Draw(t, "oddmsgri")
+		a := UnHex(gs.Messengers[i].Addr)
+		if rapid.Bool().Draw(t, "oddmsgrlong") {
+			a = append(a, 0xde, 0xad, 0xbe, 0xef)
+		} else {
+			a = a[12:]
+		}
+		gs.Messengers[i].Addr = Hex(a)
 	}
 	if o.EmptyRoles && rapid.IntRange(0, 7).Draw(t, "emptyroles") == 0 {
 		for slot := 1; slot <= 3; slot++ {
